@@ -18,7 +18,7 @@ ID = "C04"
 LEVEL = "model_checking"
 REWRITES = loader.REWRITES
 STUBS = C03.STUBS
-ASSUMPTIONS = C03.ASSUMPTIONS + ["the (sentinel, False) format uses a symbolic integer sentinel in [-1000, 1000]",
+ASSUMPTIONS = C03.ASSUMPTIONS + ["the (sentinel, False) format uses a symbolic integer sentinel in [-1000, 1000]", "rounding-residue configurations: every float array subtraction is perturbed by a solver-chosen |r| <= 1e-12 and only the set of missing cells is compared",
                                  "excluded as the property says: valid_count with a plain replacement value under propagation"]
 ENGINE_OPTS = C03.ENGINE_OPTS
 FMTS = ["nan", "pair", "zero"]
@@ -46,6 +46,13 @@ def configs(tier, seed):
                             out.append(C03._base(3, [[]], 2, [i % 2], agg, weights=wf, ignore=ignore, fact=fact, K=K, side=side))
         out.append(C03._base(2, [[], []], 2, [0, 1], agg, weights="array", ignore=False, side="ccube"))
         out.append(C03._base(2, [[], []], 2, [1, 0], agg, weights="array", ignore=True, side="xcube"))
+        # rounding-residue mode: the marginal differencing of float regions is exact only up to a bounded perturbation
+        # (|r| <= 1e-12 per subtraction); the set of missing cells must not depend on it
+        if agg in ("mean", "count", "sum"):
+            for ignore in (False, True):
+                out.append(C03._base(3, [[]], 2, [0], agg, weights="array", ignore=ignore, fact="nan", K=1, side="ccube", residue="1e-12"))
+            out.append(C03._base(4, [[]], 3, [0], agg, weights="array", ignore=True, fact="nan", K=1, side="ccube", residue="1e-12"))
+            out.append(C03._base(2, [[], []], 2, [1, 0], agg, weights="pair", ignore=False, fact="nan", K=1, side="ccube", residue="1e-12"))
         if tier == "thorough":
             out.append(C03._base(4, [[]], 2, [0], agg, weights="pair", ignore=False, side="ccube"))
             out.append(C03._base(4, [[]], 2, [1], agg, weights="pair", ignore=False, side="xcube"))
@@ -57,7 +64,18 @@ def explore(cfg, eng, ctx):
     agg, ignore, side = cfg["agg"], cfg["ignore"], cfg["side"]
     fmts = [f for f in FMTS if not (agg == "valid_count" and f == "zero" and not ignore)]
 
+    from symex import snp as _snp
+    if cfg.get("residue"):
+        fmts = [f for f in fmts if f != "zero"]
+
     def path():
+        _snp.RESIDUE[0] = cfg.get("residue")
+        try:
+            return path_()
+        finally:
+            _snp.RESIDUE[0] = None
+
+    def path_():
         data = aggs.Data(eng, cfg)
         cur = {"fmt": fmts[0]}
 
@@ -67,6 +85,10 @@ def explore(cfg, eng, ctx):
                 return None
             c.update(kind="aggs", agg=agg, ignore=ignore, fmt=cur["fmt"], commons=cfg["commons"], dense_dtype=cfg["dtype"],
                      ishape=list(C03.ishape_of(cfg)), sides=[side])
+            if cfg.get("residue"):
+                # a rounding residue is not an input: the replay searches non-dyadic rescalings of the weights for one that
+                # makes the difference observable on the real build; none found = not observable = no violation
+                c.update(residue=cfg["residue"], unobservable_ok=True)
             return c
         ctx.case_builder = builder
         fact, weights = data.fact(), data.weights()
@@ -92,6 +114,10 @@ def explore(cfg, eng, ctx):
             aggs.assert_all(eng, cs, "%s %s: %s format disagrees with the missing-cell rule / values" % (side, agg, fmt))
             results[fmt] = aggs.split_result(res, fmt)
         # cross-format consistency, stated directly
+        if cfg.get("residue"):
+            ctx.case_builder = None      # holding paths of the residue mode are not cross-validated (the residue is not an input)
+            ctx.end_path()
+            return
         if "nan" in results and "pair" in results:
             cur["fmt"] = "pair"
             vn, _ = results["nan"]
